@@ -318,6 +318,20 @@ def conventional(rng, name, feat=None):
         if rng.random() < 0.5 or feat.get("streams"):
             s.rpc("Collect", P + ".ChatMessage", P + ".ChatMessage", cs=True)
             tags.add("client-streaming")
+    if feat.get("odd_rpcs"):
+        # RPC names that collide with Python keywords or with attributes of the transport classes
+        q = f.message("OddRequest")
+        q.field("name", "string")
+        q.field("n", "int32")
+        o = f.message("OddReply")
+        o.field("text", "string")
+        s = svcs[0]
+        for nm in rng.sample(["Import", "Yield", "Return", "Pass", "Class", "CreateChannel", "GrpcChannel", "OperationsClient"], 4):
+            if nm == "Yield":
+                s.rpc(nm, P + ".OddRequest", P + ".OddReply", ss=True)
+            else:
+                s.rpc(nm, P + ".OddRequest", P + ".OddReply")
+        tags.add("odd-rpc-names")
     if feat.get("foreign"):
         # requests/responses from dependency packages (pb2 classes at run time)
         f.pb.dependency.extend(["google/iam/v1/iam_policy.proto", "google/iam/v1/policy.proto"])
@@ -363,11 +377,13 @@ def lib_root(api_info, options=()):
     return ".".join([s.lower() for s in ns] + [mod])
 
 
-def wellformed(rng, name):
-    """Conventional core plus the extra shapes of DESIGN §4."""
+def wellformed(rng, name, zero_ns=False):
+    """Conventional core plus the extra shapes of DESIGN §4.  zero_ns: allow a
+    package without namespace segment (known finding C01-zero-namespace)."""
     feat = {
         "version": rng.choice(["v1", "v1beta1", "v1p1beta1", "v2alpha", "v1", None]),
-        "ns": rng.choice([["vp"], ["vp", "cloud"], ["vp", "cloud", "x3"], ["vp"], []]),
+        "ns": rng.choice([["vp"], ["vp", "cloud"], ["vp", "cloud", "x3"], ["vp"]] + ([[]] if zero_ns else [])),
+        "odd_rpcs": rng.random() < 0.5,
         "nfiles": rng.choice([1, 1, 2]),
         "exotic": rng.random() < 0.6,
         "streams": rng.random() < 0.5,
@@ -685,11 +701,12 @@ def rest_api(rng, name, numeric=False, nmethods=10):
     rng.shuffle(shapes)
     for i, shape in enumerate(shapes[:nmethods]):
         q = f.message(f"Req{i}")
-        q.field("name", "string")
-        q.field("parent", "string")
-        q.field("sub", P + ".Sub")
-        q.field("payload", P + ".Payload")
-        q.field("part_num", rng.choice(["int32", "int64", "uint32"]))
+        # path-bound fields are usually annotated REQUIRED in real APIs
+        q.field("name", "string", required=rng.random() < 0.5)
+        q.field("parent", "string", required=rng.random() < 0.5)
+        q.field("sub", P + ".Sub", required=rng.random() < 0.3)
+        q.field("payload", P + ".Payload", required=rng.random() < 0.3)
+        q.field("part_num", rng.choice(["int32", "int64", "uint32"]), required=rng.random() < 0.5)
         # query-position fields
         nreq = rng.randint(0, 4)
         for j, t in enumerate(rng.sample(REQ_SCALARS, nreq)):
@@ -757,5 +774,95 @@ def rest_api(rng, name, numeric=False, nmethods=10):
     s.rpc("Tail", P + ".Req0", P + ".Leaf", ss=True, http={"get": f"/{ver}/{{name=things/*}}:tail"})
     tags.update(["unbound-rpc", "client-streaming", "server-streaming"])
     api.options = ["transport=rest"] + (["rest-numeric-enums"] if numeric else [])
+    api.info.update(pkg=pkg, version=ver, ns=["vp"], name=name, host=f"{name}.googleapis.com")
+    return api
+
+
+def flat_api(rng, name):
+    """method_signature heavy API (C05)."""
+    api = Api(name)
+    tags = api.tags
+    ver = "v1"
+    pkg = f"vp.{name}.{ver}"
+    P = "." + pkg
+    f = File(f"vp/{name}/{ver}/{name}.proto", pkg, deps=list(STD_DEPS) + ["google/iam/v1/iam_policy.proto", "google/iam/v1/policy.proto"])
+    api.dep_mods += ["google.iam.v1.iam_policy_pb2", "google.iam.v1.policy_pb2"]
+    api.add(f)
+    color = f.enum("Color", "COLOR_UNSPECIFIED", "RED", "GREEN")
+    leaf = f.message("Leaf")
+    leaf.field("id", "string")
+    leaf.field("n", "int32")
+    leaf.field("color", color)
+    leaf.field("opt", "string", optional=True)
+    sub = f.message("Sub")
+    sub.field("id", "string")
+    sub.field("num", "sint64")
+    sub.field("flag", "bool")
+    sub.field("leaf", P + ".Leaf")
+    sub.field("kinds", "string", repeated=True)
+    sub.field("deep", P + ".Sub.Deep")
+    deep = sub.nested("Deep")
+    deep.field("code", "uint32")
+    deep.field("label", "string")
+    out = f.message("Reply")
+    out.field("ok", "bool")
+    s = f.service("Flat", host=f"{name}.googleapis.com")
+    pools = {
+        "scalar": [("name", "string"), ("count", "int32"), ("ratio", "double"), ("flag", "bool"), ("blob", "bytes"),
+                   ("big", "uint64"), ("neg", "sint32"), ("fx", "fixed64"), ("score", "float")],
+        "optional": [("opt_count", "int32"), ("opt_name", "string"), ("opt_flag", "bool"), ("opt_ratio", "double")],
+        "reserved": [("class", "string"), ("type", "int32"), ("from", "string"), ("filter", "string"), ("max", "int64"), ("format", "bool")],
+    }
+    sig_sets = [
+        [["name"]],
+        [["name", "count"]],
+        [["name"], ["name", "payload"], ["payload", "count"]],
+        [["sub.id", "sub.num"]],
+        [["sub.deep.code", "name"]],
+        [["tags"]],
+        [["labels", "name"]],
+        [["leaf", "leaves"]],
+        [["color", "colors"]],
+        [["opt_count", "opt_name", "opt_flag"]],
+        [["class", "type"]],
+        [["from", "filter", "max", "format"]],
+        [["name", "count", "ratio", "flag", "blob"]],
+        [["sub.leaf", "big", "neg"]],
+        [["by_num", "fx", "score"]],
+        [[]],
+        [["sub.kinds", "opt_ratio"]],
+        [["when", "mask"]],
+    ]
+    rng.shuffle(sig_sets)
+    for i, sigs in enumerate(sig_sets[:rng.randint(8, 12)]):
+        q = f.message(f"Req{i}")
+        for n, t in pools["scalar"]:
+            q.field(n, t)
+        for n, t in pools["optional"]:
+            q.field(n, t, optional=True)
+        for n, t in pools["reserved"]:
+            q.field(n, t)
+        q.field("payload", P + ".Leaf")
+        q.field("sub", P + ".Sub")
+        q.field("leaf", P + ".Leaf")
+        q.field("leaves", P + ".Leaf", repeated=True)
+        q.field("tags", "string", repeated=True)
+        q.field("color", color)
+        q.field("colors", color, repeated=True)
+        q.map("labels", "string", "string")
+        q.map("by_num", "int32", P + ".Leaf")
+        q.field("when", ".google.protobuf.Timestamp")
+        q.field("mask", ".google.protobuf.FieldMask")
+        q.field("untouched", "string")
+        s.rpc(f"Call{i}", P + f".Req{i}", P + ".Reply", sigs=[",".join(x) for x in sigs])
+        for x in sigs:
+            for p in x:
+                tags.add("sig:" + ("dotted" if "." in p else p))
+        tags.add(f"nsigs:{len(sigs)}")
+    # requests from a dependency package (pb2 classes): non-primitive fields are not offered
+    s.rpc("SetPolicy", ".google.iam.v1.SetIamPolicyRequest", ".google.iam.v1.Policy", sigs=["resource"])
+    s.rpc("TestPerms", ".google.iam.v1.TestIamPermissionsRequest", ".google.iam.v1.TestIamPermissionsResponse", sigs=["resource,permissions"])
+    tags.add("foreign-request")
+    api.options = ["transport=grpc", "autogen-snippets=false"]
     api.info.update(pkg=pkg, version=ver, ns=["vp"], name=name, host=f"{name}.googleapis.com")
     return api
